@@ -189,7 +189,11 @@ def _c19(P, name, decl, rng):
             fields.append((ins.name, ins.tag))
         elif ins.tag == "switch":
             fields.append((ins.field + "_data", "case"))
+    shown0 = repr(obj)
     before = bytes(P.serialize(name, obj, P.ctx[name]).to_bytearray())
+    n += 1
+    if repr(obj) != shown0:
+        return {"kind": "serialize-changes-the-instance", "property": "C19", "before": shown0[:300], "after": repr(obj)[:300]}, n
     for fname, tag in fields + [("byte_size", "size")]:
         n += 1
         try:
